@@ -12,5 +12,6 @@ CONSTANTS
   Drivers = {"iour"}
   Impls = {"pidfd"}
   Families = {"held"}
+  BlockingChildPipes = FALSE
 SPECIFICATION Spec
 INVARIANTS TypeOK HeldStdinNeverStuck
